@@ -26,6 +26,7 @@ import (
 	"sync/atomic"
 
 	"github.com/tochemey/goakt/v4/internal/timer"
+	"github.com/tochemey/goakt/v4/internal/verifhook"
 )
 
 // contextPoolSize controls the bounded channel-based pool for
@@ -78,6 +79,7 @@ func getContext() *ReceiveContext {
 // dispatcher has processed it). A full pool drops the context for GC. The next
 // link is cleared so a context reused by a priority intake starts unlinked.
 func recycleContext(ctx *ReceiveContext) {
+	verifhook.At("ctx.recycle", ctx, 0, 0)
 	ctx.reset()
 	atomic.StorePointer(&ctx.next, nil)
 
@@ -126,7 +128,9 @@ func getResponseChannel() chan any {
 // reply that may have arrived from an actor that responded after the
 // caller's deadline expired. A full pool drops the excess for GC.
 func putResponseChannel(ch chan any) {
+	verifhook.At("pool.chan.drain", ch, 0, 0)
 	drainAnyChannel(ch)
+	verifhook.At("pool.chan.put", ch, 0, 0)
 	select {
 	case responseCh <- ch:
 	default:
